@@ -117,11 +117,31 @@ impl Array {
         let (a, a_transpose) = a;
         let (b, b_transpose) = b;
 
-        let input_dimensions = if a.dimensions.len() >= b.dimensions.len() {
-            &a.dimensions
+        // broadcast the leading dimensions of the shorter operand onto the longer
+        let (longer, shorter) = if a.dimensions.len() >= b.dimensions.len() {
+            (&a.dimensions, &b.dimensions)
         } else {
-            &b.dimensions
+            (&b.dimensions, &a.dimensions)
         };
+
+        let mut input_dimensions = longer.clone();
+        let leading_count = input_dimensions.len().saturating_sub(2);
+        for (l, s) in input_dimensions
+            .iter_mut()
+            .take(leading_count)
+            .rev()
+            .zip(shorter.iter().rev().skip(2))
+        {
+            assert!(
+                *l == *s || *l == 1 || *s == 1,
+                "error: the dimensions {:?}, and {:?} are not compatible",
+                a.dimensions,
+                b.dimensions
+            );
+
+            *l = cmp::max(*l, *s);
+        }
+        let input_dimensions = &input_dimensions;
 
         // TODO OpenCL
         let output_rows = if a.dimensions.len() < 2 && (!a_transpose || b.dimensions.len() < 2) {
